@@ -258,6 +258,36 @@ P("C06",
                "cases where the side margin removes every free segment are discarded (the degenerate case the property excludes)"])
 
 
+P("C03",
+  rc={"quick": (14, 1500, 100, 8), "thorough": (14, 25000, 100, 12)},
+  budget={"quick": 150, "thorough": 1800},
+  case_timeout=120,
+  rule=CIRCUIT_RULE + "Flows: placeGlobal, legalize, placeDetailed, global->legalize->detailed, legalize twice (global "
+       "flows in the global-placement domain); callback none / observing / throwing a harness-private exception at a "
+       "generated index; 1 in 12 cases with a rejected parameter set. Oracle: a snapshot of every public getter is equal "
+       "before and after each call, and inside every callback, for everything except x/y/orientation of movable cells "
+       "(after placeGlobal all orientations too), whether the call returned or threw. non-trivial = a fixed cell carries a "
+       "pin and a movable cell moved, or a call ended in an exception; distinct = hash of circuit, flow and callback mode.",
+  assumptions=["the class of known finding c06-unanchored-far-from-origin is excluded from the flows that run global placement"])
+
+
+P("C10",
+  level="fault_enumeration",
+  rc={"quick": (14, 600, 100, 8), "thorough": (14, 10000, 100, 8)},
+  budget={"quick": 150, "thorough": 1800},
+  case_timeout=200,
+  rule=CIRCUIT_RULE + "Small instances (<= 12 movable cells, maxNbSteps <= 12), stage in {placeGlobal, legalize, "
+       "placeDetailed}, 1 in 11 with rejected parameters. Reference run with a callback that calls every structural setter "
+       "(addNet, setNets, setRows, setupRows, setCellIsFixed, setCellIsObstruction, setCellRowPolarity) at every invocation: "
+       "each must throw and change nothing; this yields K. Then for EVERY k < K a fresh copy is run with a callback throwing a "
+       "harness-private exception at invocation k: it must reach the caller, afterwards every setter is accepted, "
+       "Circuit::check() passes and a further legalize behaves as on a fresh circuit with the same placement; after a failed "
+       "legalization or rejected parameters the placement is bit-identical. non-trivial = K >= 3, or an infeasible "
+       "legalization with >= 3 cells; distinct = hash of circuit and stage. class_histogram['fault-points'] is the number of "
+       "injected faults.",
+  assumptions=["only the setters named by the property's mechanism are required to refuse"])
+
+
 # ----------------------------------------------------------------------------
 def sh(cmd, **kw):
     return subprocess.run(cmd, stdout=subprocess.PIPE, stderr=subprocess.STDOUT, text=True, **kw)
